@@ -59,7 +59,12 @@ def cases(rng, tier):
     return out
 
 
+PROPS_FILES = ['C19', 'C19step']
+
+
 def units():
     thms = ['C19_user_psr_write', 'C19_svc_from_user', 'C19_unpriv_read', 'C19_unpriv_write']
     return [Unit('confinement', thms, ['Proofs/Confinement.v', 'Proofs/ArchFacts.v', 'Proofs/CpsrWrite.v', 'Proofs/ExcProofs.v'],
-                 [], cases, IMPORTS, SPEC_IMPORTS)]
+                 [], cases, IMPORTS, SPEC_IMPORTS),
+            Unit('skip_confined', ['C19_skip_privileged', 'C19_skip_sys'], ['Proofs/StepIT.v', 'Proofs/StepProofs.v'],
+                 ['arm_v6.ArmV6.emulate_cycle', 'arm_v6.ArmV6.execute_instruction'], None, IMPORTS, SPEC_IMPORTS)]
